@@ -118,7 +118,7 @@ PROPS = {
         "rule": "one worker; connection 0 requests 1..4 responses larger than its buffers and stops reading for 0.2..3 s; 1..3 neighbour connections "
                 "issue small requests before, during and after the stall; c07_http: the same through the HTTP layer (one worker; the stalled connection asks for fixed-length responses, "
                 "replies from an application thread, files and chunked streams whose handler flushes every chunk on the worker thread; keep-alive neighbours); " + NONTRIVIAL,
-        "probes_expected": ["eagain-branch", "short-write", "stalled-size", "stalled-async", "stalled-file", "stalled-stream", "stalled-astream", "stalled-hints", "stalled-astreamp", "neighbour-crowd", "during-stall-next-head", "during-stall-whole-request", "during-stall-upload", "bulk-input-without-write-while-writes-pending"],
+        "probes_expected": ["eagain-branch", "short-write", "stalled-size", "stalled-async", "stalled-file", "stalled-stream", "stalled-astream", "stalled-hints", "stalled-astreamp", "neighbour-crowd", "stalled-across-idle-scans", "during-stall-next-head", "during-stall-whole-request", "during-stall-upload", "bulk-input-without-write-while-writes-pending"],
         "assumptions": ["latency bound for neighbours: 100 simulated ms (quanta are microseconds; no thread stalls are injected in this scenario)"],
         "quick": {"batches": [("c07_stall", "plain", 3000), ("c06_writes", "plain", 4000), ("c07_http", "plain", 5000), ("c07_http", "asan", 500)], "chunk": 50},
         "thorough": {"batches": [("c07_stall", "plain", 30000), ("c06_writes", "plain", 50000), ("c07_http", "plain", 60000), ("c07_http", "asan", 5000), ("c07_http", "tsan", 5000)], "chunk": 200},
